@@ -55,6 +55,12 @@ func runC10(w *World, r *Report) {
 	r.Rule("C10-R7", "bookkeeping read-modify-write is atomic", "a value written into collectionNames.{data,excludeData,extraInfos,nameMapping} that derives from a read of the same table was read in the same function under the same lock span as the write (same analysis as C19-R8)", 4)
 	c19AtomicRMW(w, r, "C10-R7")
 	c10OneCriticalSection(w, r, "C10-R8")
+	c10ReloadRegistersAll(w, r)
+	c10SiblingKeys(w, r)
+	// "the bookkeeping after delete ... equals what the remaining tasks imply": ownership is released only when the
+	// persisted deletion really happened (C11-R8), and the deletion commits or fails as a whole (C12-R3)
+	defer r.importRules(runC11, "C10-", map[string]bool{"C11-R8": true})
+	defer r.importRules(runC12, "C10-", map[string]bool{"C12-R3": true})
 
 	cd := w.Func(pkgServer, "MetaCDC", "checkDuplicateCollection")
 	cr := w.Func(pkgServer, "MetaCDC", "Create")
@@ -515,4 +521,104 @@ func c10OneCriticalSection(w *World, r *Report, rule string) {
 	default:
 		r.OK(rule, cons, acq[0].Pos(), "one write-lock acquisition, released at exit")
 	}
+}
+
+// c10ReloadRegistersAll (C10-R9): after a restart the bookkeeping equals what ALL persisted tasks imply, also the paused
+// and the not auto-started ones.
+func c10ReloadRegistersAll(w *World, r *Report) {
+	r.Rule("C10-R9", "reload registers every listed task", "in ReloadTask's loop over the persisted tasks the updates of collectionNames.data, excludeData and extraInfos lie on every path through one iteration (no `continue` — disabled auto start, failed start — bypasses them)", 3)
+	fn := w.Func(pkgServer, "MetaCDC", "ReloadTask")
+	if fn == nil {
+		r.Undecided("C10-R9", "(*MetaCDC).ReloadTask", 0, "anchor not found")
+		return
+	}
+	seen := map[string]bool{}
+	eachInstr(fn, func(in ssa.Instruction) {
+		mu, ok := in.(*ssa.MapUpdate)
+		if !ok {
+			return
+		}
+		ap := strings.TrimSuffix(w.accessPath(mu.Map), "[]")
+		i := strings.Index(ap, ".collectionNames.")
+		if i < 0 {
+			return
+		}
+		table := ap[i+len(".collectionNames."):]
+		if table != "data" && table != "excludeData" && table != "extraInfos" {
+			return
+		}
+		h := loopHeaderOf(mu.Block())
+		if h == nil {
+			r.Fail("C10-R9", "(*MetaCDC).ReloadTask | "+table+" registered per task", mu.Pos(), "the update is not inside the loop over the persisted tasks")
+			seen[table] = true
+			return
+		}
+		ok2 := true
+		for _, p := range h.Preds {
+			if (h == p || h.Dominates(p)) && !(mu.Block() == p || mu.Block().Dominates(p)) {
+				ok2 = false
+			}
+		}
+		if seen[table] && ok2 {
+			return
+		}
+		if !ok2 {
+			// another update of the same table may cover the iteration
+			for _, b := range fn.Blocks {
+				for _, in2 := range b.Instrs {
+					if mu2, isMu := in2.(*ssa.MapUpdate); isMu && mu2 != mu && strings.HasSuffix(strings.TrimSuffix(w.accessPath(mu2.Map), "[]"), ".collectionNames."+table) {
+						all := true
+						for _, p := range h.Preds {
+							if (h == p || h.Dominates(p)) && !(b == p || b.Dominates(p)) {
+								all = false
+							}
+						}
+						if all {
+							ok2 = true
+						}
+					}
+				}
+			}
+		}
+		seen[table] = true
+		r.Check(ok2, "C10-R9", "(*MetaCDC).ReloadTask | "+table+" registered for every listed task", mu.Pos(), "on every path through one iteration", "an iteration can end (continue) without this update: a persisted task that is not started at reload (disable_auto_start, failed start) owns nothing in the bookkeeping, so an overlapping create is accepted and, once the task is resumed, two tasks replicate the same collection")
+	})
+	for _, t := range []string{"data", "excludeData", "extraInfos"} {
+		if !seen[t] {
+			r.Fail("C10-R9", "(*MetaCDC).ReloadTask | "+t+" registered for every listed task", fn.Pos(), "ReloadTask does not update collectionNames."+t)
+		}
+	}
+}
+
+// c10SiblingKeys (C10-R10): the per-target key of the bookkeeping is computed by two sibling functions, one from the
+// create request and one from the persisted task; create, delete and reload only meet in the same table entry when
+// both apply the same functions to the same connect parameters.
+func c10SiblingKeys(w *World, r *Report) {
+	r.Rule("C10-R10", "sibling key functions agree", "getTaskUniqueIDFromReq and getTaskUniqueIDFromInfo return the result of the same functions applied to the Milvus / Kafka connect parameters (same set of callees on the way to the returned key)", 1)
+	a, b := w.Func(pkgServer, "", "getTaskUniqueIDFromReq"), w.Func(pkgServer, "", "getTaskUniqueIDFromInfo")
+	if a == nil || b == nil {
+		r.Undecided("C10-R10", "getTaskUniqueIDFrom{Req,Info}", 0, "anchor not found")
+		return
+	}
+	callees := func(fn *ssa.Function) []string {
+		set := map[string]bool{}
+		eachInstr(fn, func(in ssa.Instruction) {
+			ret, ok := in.(*ssa.Return)
+			if !ok {
+				return
+			}
+			for _, res := range ret.Results {
+				for _, x := range backSlice(res, SliceOpts{MaxDepth: 10, ThroughArg: func(c *ssa.CallCommon) []ssa.Value { return callArgs(c) }}) {
+					if c, isC := x.(*ssa.Call); isC {
+						if n := calleeName(w, c.Common()); !strings.HasPrefix(n, "dyn:") {
+							set[n] = true
+						}
+					}
+				}
+			}
+		})
+		return sortedKeys(set)
+	}
+	ca, cb := callees(a), callees(b)
+	r.Check(eqSet(ca, cb), "C10-R10", "getTaskUniqueIDFromReq ~ getTaskUniqueIDFromInfo", a.Pos(), "both keys are "+strings.Join(ca, ", ")+" of the connect parameters", fmt.Sprintf("the key computed from a create request goes through %v, the key computed from a persisted task through %v: for an address the extra step changes, create checks one table entry while reload and delete use another (a duplicate create is accepted after a restart; a deleted task's names stay registered)", ca, cb))
 }
